@@ -464,9 +464,21 @@ def _cmp_parse(got, exp):
     return bad
 
 
+def _sig_class(clause, shape, dkind, addr):
+    """Input class that goes into a signature: only the dimensions the clause can depend on."""
+    if clause == 'dongle':
+        return 'dongle=' + dkind
+    if clause == 'address':
+        return 'shape=%s:addr=%s:case=%s' % (shape, addr_class(addr), case_class(addr))
+    if clause in ('channel', 'datarate', 'rate_limit'):
+        return 'shape=' + shape
+    coarse = dkind if dkind in ('index', 'serial_numeric') else 'serial'
+    return 'shape=%s:dongle=%s:addr=%s' % (shape, coarse, addr_class(addr))
+
+
 def parse_case(p, uri, exp, shape, dkind, addr, qtext, want_sample=False):
     from cflib.crtp.radiodriver import RadioDriver
-    cls = 'shape=%s:dongle=%s:addr=%s' % (shape, dkind, addr_class(addr))
+    cls = _sig_class('raises', shape, dkind, addr)
     rp = {'part': 'parse', 'uri': uri}
     try:
         got = RadioDriver.parse_uri(uri)
@@ -486,7 +498,7 @@ def parse_case(p, uri, exp, shape, dkind, addr, qtext, want_sample=False):
         p.sample({'part': 'parse_uri', 'uri': uri, 'returned': repr(got),
                   'reference': repr(exp)})
     for clause in _cmp_parse(got, exp):
-        p.violation('parse:%s:%s' % (clause, cls),
+        p.violation('parse:%s:%s' % (clause, _sig_class(clause, shape, dkind, addr)),
                     'RadioDriver.parse_uri(%r) returned %r; independent parser says dongle %d, channel %d, '
                     'rate code %d (%s), address bytes %r, rate limit %r'
                     % (uri, got, exp[0], exp[1], exp[2], RATE_NAME[exp[2]], exp[3], exp[4]), rp)
@@ -543,7 +555,7 @@ N_WRITES = 11      # 10 safelink probes + at least one null packet
 
 def connect_case(p, world, crtp, uri, exp, shape, dkind, addr, want_sample=False):
     from cflib.crtp.radiodriver import RadioDriver
-    cls = 'shape=%s:dongle=%s:addr=%s' % (shape, dkind, addr_class(addr))
+    cls = _sig_class('raises', shape, dkind, addr)
     rp = {'part': 'connect', 'uri': uri}
     try:
         RadioDriver.parse_uri(uri)
@@ -572,10 +584,10 @@ def connect_case(p, world, crtp, uri, exp, shape, dkind, addr, want_sample=False
     link.close()
     log = world.snapshot()
     p.case(key=('connect', uri), outcome=(exp[0], exp[2], shape, 0 if addr is None else len(addr)))
-    p.add('radio_packets_observed', len(log))
+    p.add('radio_packets_checked_at_least', min(len(log), N_WRITES))
     if want_sample and log:
         e = log[-1]
-        p.sample({'part': 'connect', 'uri': uri, 'packets_seen': len(log),
+        p.sample({'part': 'connect', 'uri': uri, 'packets_checked_at_least': min(len(log), N_WRITES),
                   'on_air': {'dongle': e[0], 'channel': e[1], 'rate_code': e[2],
                              'address': bytes(e[3]).hex().upper() if e[3] else None}})
     if not seen:
@@ -594,7 +606,7 @@ def connect_case(p, world, crtp, uri, exp, shape, dkind, addr, want_sample=False
         elif a != exp[3]:
             wrong = 'address'
         if wrong:
-            p.violation('connect:wrong_%s:%s' % (wrong, cls),
+            p.violation('connect:wrong_%s:%s' % (wrong, _sig_class(wrong, shape, dkind, addr)),
                         'link for %r transmitted on dongle %r channel %r rate code %r address %r; the URI names dongle %d '
                         'channel %d rate code %d address %r' % (uri, idx, ch, rate, a, exp[0], exp[1], exp[2], exp[3]), rp)
             break
@@ -798,14 +810,14 @@ BAD = (
     ('radio_bad_channel', 'radio://0/0x10/2M'), ('radio_bad_channel', 'radio://0/1.5/2M'),
     ('radio_bad_channel', 'radio://0//2M'), ('radio_bad_channel', 'radio://0/2M'),
     ('radio_bad_channel', 'radio://0/E7E7E7E7E7'), ('radio_bad_channel', 'radio://0/channel80/2M/E7E7E7E7E7'),
-    ('radio_bad_rate', 'radio://0/80/3M'), ('radio_bad_rate', 'radio://0/80/2m'), ('radio_bad_rate', 'radio://0/80/250k'),
+    ('radio_bad_rate', 'radio://0/80/3M'), ('radio_bad_rate', 'radio://0/80/500K/E7E7E7E7E7'),
     ('radio_bad_rate', 'radio://0/80/2'), ('radio_bad_rate', 'radio://0/80/E7E7E7E7E7'),
     ('radio_bad_rate', 'radio://0/80/1M2M/E7E7E7E7E7'), ('radio_bad_rate', 'radio://0/80/fast'),
     ('radio_addr_not_hex', 'radio://0/80/2M/XYZ'), ('radio_addr_not_hex', 'radio://0/80/2M/E7E7E7E7G7'),
-    ('radio_addr_not_hex', 'radio://0/80/2M/E7-E7-E7-E7-E7'), ('radio_addr_not_hex', 'radio://0/80/2M/0xE7E7E7E7'),
+    ('radio_addr_not_hex', 'radio://0/80/2M/E7-E7-E7-E7-E7'), ('radio_addr_not_hex', 'radio://0/80/1M/E7E7E7E7ZZ'),
     ('radio_addr_not_hex', 'radio://0/80/250K/g'),
     ('radio_addr_oversized', 'radio://0/80/2M/E7E7E7E7E70'), ('radio_addr_oversized', 'radio://0/80/2M/E7E7E7E7E701'),
-    ('radio_addr_oversized', 'radio://0/80/2M/00E7E7E7E7E7'), ('radio_addr_oversized', 'radio://0/80/1M/E7E7E7E7E7E7E7'),
+    ('radio_addr_oversized', 'radio://0/80/2M/E7E7E7E7E7E7'), ('radio_addr_oversized', 'radio://0/80/1M/E7E7E7E7E7E7E7'),
     ('radio_addr_oversized', 'radio://0/80/2M/0123456789ABCDEF0123'),
 )
 BAD_NO_SERIAL = (('optional_driver_disabled', 'serial://ttyACM0'),)
@@ -1047,7 +1059,7 @@ def openlink_sequence(p, world, seq, good, cfg_serial, want_sample=False):
     log = world.snapshot()
     tail = 'prev=%s:config=%s' % (prev_class, cfgname)
     trace.append({'open_link': guri, 'connection_failed': nfail, 'link_after': type(link).__name__,
-                  'radio_packets': len(log)})
+                  'radio_packets_at_least': min(len(log), N_WRITES)})
     if escaped is not None:
         p.violation('open_link:reuse:exception:' + tail, 'open_link(%r) after failed attempts raised %r' % (guri, escaped), rp)
     elif not ok_driver or nfail:
